@@ -329,7 +329,7 @@ theorem readFields_enc (g : Bool) (ts ms : List (String × Msg)) (skip : List St
         obtain ⟨hk, hok⟩ := hm
         have ih1 := read_enc true t m [] hok (fun _ => rfl)
         simp only [List.append_nil] at ih1
-        simp [readFields, encFields, hs, ho, hl, List.append_assoc, rdExact_append' k _ _ hk, ih1, ih2]
+        simp [readFields, readStep, encFields, hs, ho, hl, List.append_assoc, rdExact_append' k _ _ hk, ih1, ih2]
       | none =>
         simp only [hl] at hm
         have hempty : (g && ts'.isEmpty) = true → encFields ms' (addSkip o skip) ++ rest = [] := by
@@ -341,7 +341,7 @@ theorem readFields_enc (g : Bool) (ts ms : List (String × Msg)) (skip : List St
           | nil => simp [encFields, hg hgt]
           | cons a l => simp [OKFields] at h2
         have ih1 := read_enc (g && ts'.isEmpty) t m (encFields ms' (addSkip o skip) ++ rest) hm hempty
-        simp [readFields, encFields, hs, ho, hl, List.append_assoc, ih1, ih2]
+        simp [readFields, readStep, encFields, hs, ho, hl, List.append_assoc, ih1, ih2]
   | [], _ :: _ => simp [OKFields] at h
   | _ :: _, [] => simp [OKFields] at h
 end
